@@ -224,6 +224,13 @@ NoReclaimLoss == st.yremoved => st.consumedY = Len(st.yq)
 FlushOK == ~st.flushbad
 \* C17: remove_logger_blocking() returns only after the removal has completed (logger erased, sink destroyed, ordered before the caller)
 RemoveOK == ~st.removebad
+\* liveness: a backend that keeps iterating and eventually reads the NEWEST messages (stores become visible in finite time) ends a
+\* requested stop, lets flush_log() return (C06: "flush_log() returns as long as the backend keeps running") and remove_logger_blocking() too
+BLatest == BIter(Len(R), Len(W), IF st.yremoved THEN view["B"]["WY"] ELSE Len(WY))
+FairSpec == Spec /\ WF_vars(BLatest) /\ WF_vars(\E i \in 1..Len(FL) : XFlushReturn(i)) /\ WF_vars(\E i \in 1..Len(RB) : XRemoveReturn(i))
+StopEnds == st.stopreq ~> st.finished
+FlushReturns == st.inflush ~> ~st.inflush
+RemoveReturns == st.inremove ~> ~st.inremove
 TypeOK == /\ st.proc <= st.consumed /\ st.consumed <= Len(st.xq) /\ st.procY <= st.consumedY /\ st.consumedY <= Len(st.yq)
           /\ (st.finished => st.stopreq) /\ (st.joined => st.yexited) /\ st.owedY <= Len(st.yq)
 StateView == <<W, WY, R, FL, RB, clk, view, st>>
